@@ -394,6 +394,15 @@ func (p c11) RunBatch(t *core.T, b core.Batch) {
 				"splice:duplicate-signature":   doc + sigBlock,
 				"splice:hash-header":           strings.Replace(doc, "Hash: SHA256", r.Pick([]string{"Hash: SHA1", "Hash: MD5", "Hash: SHA512", "Hash: "}), 1),
 			}
+			// edits that OpenPGP's canonical text ignores (blanks at the end of a line): the signature still verifies,
+			// and what comes out must be the VERIFIED text - in which a line of blanks is an empty line, i.e. a
+			// paragraph separator - not a reading of the raw input
+			body := doc[bodyStart:sigStart]
+			padded := strings.ReplaceAll(body, "\n\n", "\n \t\n")
+			if padded != body {
+				sp["canon:blank-line-holds-blanks"] = doc[:bodyStart] + padded + doc[sigStart:]
+			}
+			sp["canon:blanks-appended-to-lines"] = doc[:bodyStart] + strings.ReplaceAll(body, "\n", " \t\n") + doc[sigStart:]
 			for tag, in := range sp {
 				fault := tag
 				if tag == "splice:text-after-end" || tag == "splice:foreign-block-after" || tag == "splice:duplicate-signature" {
